@@ -123,4 +123,5 @@ class C06(Check):
 
 
 def main(tier, seed, replay=None):
-    return C06().main(tier, seed, replay)
+    from harness import densex
+    return densex.extend(C06, densex.D06())().main(tier, seed, replay)
